@@ -743,6 +743,7 @@ def ext_time_rule(ctx, rule):
     hi, low = flags[16], flags[17]
     # expected length
     done = False
+    LEN_LOCAL = None
     for name, defs in vd.items():
         for (proj, e, bb) in defs:
             ex = sl.expand(e, stop=set(flags.values()))
@@ -751,6 +752,7 @@ def ext_time_rule(ctx, rule):
                 if form and not done:
                     done = True
                     if all(form.get(n_) == 4 for n_ in flags.values()) and c0 == 4 and len(form) == 4:
+                        LEN_LOCAL = name
                         rule.ok("parse_sct expected length", "4 * (1 + SCT-High + SCT-Low + ERT + SLC)", loc(f.sp))
                     else:
                         rule.violation("parse_sct expected length", "the extension length is compared with %s + %s; RFC 5651: one word per flag plus the "
@@ -767,7 +769,7 @@ def ext_time_rule(ctx, rule):
     # refusals: only a length that disagrees with the flags (or an unrepresentable time) - SCT-High alone (8 bytes) is a valid EXT_TIME
     for bb, e in ret_assign_blocks(f.body, lambda e: is_variant(e, "Err")):
         fs = fl.facts_at(bb)
-        mism = any(a[0] == "eq" and not t and "len(" in show(a[1]) + show(a[2]) and "expected_len" in show(a[1]) + show(a[2]) for (a, t) in fs)
+        mism = any(a[0] == "eq" and not t and "len(" in show(a[1]) + show(a[2]) and (LEN_LOCAL or "expected_len") in (show(a[1]), show(a[2])) for (a, t) in fs)
         key = "parse_sct refusal"
         if mism:
             rule.ok(key, "Err under ext.len() != expected_len", loc(f.sp))
